@@ -51,6 +51,15 @@ type hK5 struct { // an exported embedded struct, declared after a field of the 
 	Name string
 }
 
+type hK6 struct { // two fields holding the SAME map, and two maps that were never made
+	Name     string
+	Billing  map[string]interface{}
+	Shipping map[string]interface{}
+	NilA     map[string]interface{}
+	NilB     map[string]string
+	Count    int
+}
+
 func buildStatic(s string) interface{} {
 	body := s[3 : len(s)-1]
 	parts := strings.SplitN(body, ",", 2)
@@ -68,6 +77,12 @@ func buildStatic(s string) interface{} {
 		return hK4{privInner{9}, name, n}
 	case '5':
 		return &hK5{n, PubInner{99, 2}, name}
+	case '6':
+		shared := map[string]interface{}{"city": name, "zip": n}
+		return hK6{name, shared, shared, nil, nil, n}
+	case '7': // a document that uses one sub-map under two keys, and once more one level down
+		shared := map[string]interface{}{"city": name, "zip": n}
+		return map[string]interface{}{"Name": name, "Count": n, "x": shared, "y": shared, "z": map[string]interface{}{"inner": shared}}
 	}
 	panic("bad static host type " + s)
 }
